@@ -574,3 +574,36 @@ func VT_C01_ListReadOptions() {
 	s.check("list-with-read-options-changes-nothing")
 	vt.Reach("done")
 }
+
+// A write under a nested update mask (default_foreign_message.c) on a Value and on a Collection item: the named leaf
+// equals the written message's (absent or zero there means cleared), its sibling leaf and everything else stay.
+func VT_C01_NestedMaskStep() {
+	stored, written := &T{DefaultInt64: vt.Int64("stored.i64")}, &T{DefaultInt64: vt.Int64("written.i64")}
+	vth.Foreign(stored, "stored")
+	vth.Foreign(written, "written")
+	storedCopy := proto.Clone(stored).(*T)
+	wantC := written.GetDefaultForeignMessage().GetC()
+	wantD := storedCopy.GetDefaultForeignMessage().GetD()
+	var got proto.Message
+	var err error
+	var after *T
+	if vt.Choose("resource", 2) == 0 {
+		v := NewValue(WithInitialValue(stored), WithClock(vtClock{}))
+		got, err = v.Set(written, WithUpdatePaths("default_foreign_message.c"))
+		after = v.Get().(*T)
+	} else {
+		c := NewCollection(WithInitialRecord("0000000000000001", stored), WithClock(vtClock{}))
+		got, err = c.Update("0000000000000001", written, WithUpdatePaths("default_foreign_message.c"))
+		g, _ := c.Get("0000000000000001")
+		after = g.(*T)
+	}
+	vt.Assert(err == nil, "nested-mask-write-succeeds")
+	if err != nil {
+		return
+	}
+	vt.Assert(proto.Equal(got, after), "write-returns-what-is-stored")
+	vt.Assert(after.GetDefaultForeignMessage().GetC() == wantC, "masked-nested-leaf-equals-written-absent-means-cleared")
+	vt.Assert(after.GetDefaultForeignMessage().GetD() == wantD, "sibling-nested-leaf-unchanged")
+	vt.Assert(after.DefaultInt64 == storedCopy.DefaultInt64, "field-outside-the-mask-unchanged")
+	vt.Reach("done")
+}
